@@ -123,9 +123,9 @@ enum Leaf {
     BneMinus,
     /// `beq +` + `nop`: `+` is the end of the enclosing block
     BeqPlus,
-    /// a branch over 50 `lda late_zp` (a zero-page constant that is only defined at the end of main.asm): one
-    /// intermediate pass sees the branch too far (the label still has the value from the pass in which the
-    /// operands were taken to be absolute); the program is valid
+    /// 50 `lda fwd` (a label further down) in front of a short forward branch: in the pass in which the loads take
+    /// their size for the first time the branch target still has its address of the pass before, so that one
+    /// pass sees the branch too far; the program is valid
     TransientError,
 }
 
@@ -433,26 +433,16 @@ impl<'n> Builder<'n> {
             Leaf::BneMinus => vec![imp("dex"), ins("bne", Form::Plain, id("-"))],
             Leaf::BeqPlus => vec![ins("beq", Form::Plain, id("+")), imp("nop")],
             Leaf::TransientError => {
-                let mut v = vec![Stmt::Braces({
-                    let mut b = vec![ins("bne", Form::Plain, id("tskip"))];
-                    for _ in 0..50 {
-                        b.push(ins("lda", Form::Plain, id("late_zp")));
-                    }
-                    b.push(label("tskip"));
-                    b.push(imp("nop"));
-                    b
-                })];
-                v.push(imp("inx"));
-                v
+                let mut b = vec![];
+                for _ in 0..50 {
+                    b.push(ins("lda", Form::Plain, id("fwd")));
+                }
+                b.push(ins("bne", Form::Plain, id("tskip")));
+                b.push(imp("nop"));
+                b.push(label("tskip"));
+                b.push(imp("inx"));
+                vec![Stmt::Braces(b)]
             }
-            Leaf::JmpOuter => vec![ins("jmp", Form::Plain, id("outer"))],
-            Leaf::JmpFwd => vec![ins("jmp", Form::Plain, id("fwd"))],
-            Leaf::InnerLabel => vec![Stmt::Braces(vec![
-                label("il"),
-                imp("dex"),
-                ins("bne", Form::Plain, id("il")),
-            ])],
-            Leaf::InnerMinus => vec![Stmt::Braces(vec![imp("dex"), ins("bne", Form::Plain, id("-"))])],
             Leaf::Lda(vk) => vec![ins("lda", Form::Imm, id(&self.value_name(vk)))],
             Leaf::Byte(vk) => vec![byte(vec![bin(id(&self.value_name(vk)), "+", num(1))])],
         }
